@@ -161,6 +161,11 @@ def judge(case, impl, model):
             if st.get("other_changed"):
                 fails.append((f"{kind}-aliased-back:{S.op_site(case, ops[i])}",
                               f"{json.dumps(ops[i])[:200]} applied to the original changed its {kind} copy"))
+        for r in run.get("deep_alias", []):
+            fails.append((f"{kind}-aliased-deep:{r['direction']}:{r['mut'].split(':', 1)[-1]}",
+                          f"in-place mutation ({r['mut']}) of an object reachable from the "
+                          f"{'copy' if r['direction'] == 'copy-to-original' else 'original'} changed the other instance "
+                          f"({kind}): x={show(0)}"))
         c = copies.get(kind, {})
         if "unavailable" in c or not (c.get("eq") and c.get("eqRev")) \
                 or P.canon_state(c["state"])["o"] != P.canon_state(impl["states"][0])["o"]:
@@ -179,4 +184,13 @@ def judge(case, impl, model):
             fails.append((key, f"{json.dumps(op)[:200]} on the {kind} copy: {st['out']} {json.dumps(st['state']['o'])[:160]}; "
                                f"on a fresh equal instance: {fr['out']} {json.dumps(fr['state']['o'])[:160]}"))
             break           # later steps start from different states
+    cr = runs.get("copy")
+    if cr and copies.get("copy", {}).get("eq"):
+        for j, (st, fr) in enumerate(zip(cr["copy_steps"], cr["fresh_steps"])):
+            if st["out"] != fr["out"] or P.canon_state(st["state"])["o"] != P.canon_state(fr["state"])["o"]:
+                op = ops[cr["ops"][j]]
+                fails.append((f"copy-not-like-fresh:{S.op_site(case, op)}",
+                              f"{json.dumps(op)[:200]} on copy.copy(x): {st['out']} {json.dumps(st['state']['o'])[:160]}; "
+                              f"on a fresh equal instance: {fr['out']} {json.dumps(fr['state']['o'])[:160]}"))
+                break
     return msg, fails
